@@ -9,7 +9,8 @@ NegPattern(sh) == [shape |-> sh, cells |-> [q \in 1..Elements(sh) |-> QI(((q * 7
 MCNeg == {NegPattern(sh) : sh \in {<<3, 2, 4>>, <<2, 3, 2, 4>>, <<3, 2, 3>>}}
 MCStart == {Pattern(sh, s) : sh \in MCShapes, s \in 0..3} \cup MCNeg
 MCStartQuick == {Pattern(sh, s) : sh \in MCShapesQuick, s \in 0..1} \cup MCNeg
-MCScale == {QMk(1, 3), QI(2), QI(1000), QMk(1, 10000)}   \* the last one brings every total below one
+MCScale == {QMk(1, 3), QI(2), QI(1000), QMk(1, 10000),   \* the last one brings every total below one
+            QDiv(QOne, QPow(QI(10), 20)), QPow(QI(10), 20)}   \* a total far below machine epsilon / far above 2^53
 \* the last pair is sixteen orders of magnitude above the polymorphic entries: anything computed as
 \* "total minus the monomorphic cells" would lose the polymorphic part to rounding
 MCMono == {<<QI(0), QI(5)>>, <<QI(9), QMk(1, 2)>>, <<QPow(QI(10), 16), QMul(QI(3), QPow(QI(10), 15))>>}
